@@ -442,6 +442,9 @@ class ExprMixin:
         raise Unsupported("comparison", node)
 
     def contains(self, container, item, st, node):
+        if isinstance(container, HObj) and container.cls == "builtins.dict":
+            ents = container.fields["entries"].elems
+            return z3.Or([veq(e.elems[0], item) for e in ents]) if ents else z3.BoolVal(False)
         if isinstance(container, VTuple):
             return z3.Or([veq(item, e) for e in container.elems]) if container.elems else z3.BoolVal(False)
         if isinstance(container, VSeq):
@@ -473,6 +476,31 @@ class ExprMixin:
             if feasible(sb.pc):
                 out.extend(self.ev(node.orelse, sb))
         return out
+
+    def ev_Dict(self, node, st):
+        if any(k is None for k in node.keys):
+            raise Unsupported("dict unpacking", node)
+        out = []
+        for s, vals in self.ev_seq(list(node.keys) + list(node.values), st):
+            n = len(node.keys)
+            entries = [VTuple([k, v]) for k, v in zip(vals[:n], vals[n:])]
+            out.append((s, s.alloc(HObj("builtins.dict", {"entries": VTuple(entries)}))))
+        return out
+
+    def dict_get(self, ref, key, st, default=None):
+        """value stored under key (last write wins), or default / a `present` condition"""
+        ents = st.heap[ref.oid].fields["entries"].elems
+        present = z3.BoolVal(False)
+        val = default
+        for e in ents:
+            k, v = e.elems
+            hit = veq(k, key)
+            present = z3.Or(present, hit)
+            val = v if val is None else ite(hit, v, val)
+        return present, val
+
+    def is_dict(self, v, st):
+        return isinstance(v, VRef) and isinstance(st.heap.get(v.oid), HObj) and st.heap[v.oid].cls == "builtins.dict"
 
     def ev_Tuple(self, node, st):
         if any(isinstance(e, ast.Starred) for e in node.elts):
@@ -512,6 +540,12 @@ class ExprMixin:
         return j
 
     def getitem(self, base, idx, st, node):
+        if self.is_dict(base, st):
+            present, val = self.dict_get(base, idx, st)
+            self.safety(st, "dict:key-present", present, node, "KeyError: key not in dict")
+            if val is None:
+                raise PathEnd("keyerror")
+            return [(st, val)]
         b = self.deref(base, st)
         if isinstance(b, VOpt):
             b = self.unopt(b, st, node, "subscripted value")
